@@ -50,6 +50,9 @@ type Call struct {
 	// fails (Fault) or cancels the call's context (Cancel). 0 = none.
 	FaultAt  int `json:"fault_at,omitempty"`
 	CancelAt int `json:"cancel_at,omitempty"`
+	// FailRename makes every backend Rename of this call fail (as across devices), so that Move takes its
+	// copy-then-remove fall-back; the outcome must be the same.
+	FailRename bool `json:"fail_rename,omitempty"`
 }
 
 func (c Call) String() string {
@@ -65,6 +68,9 @@ func (c Call) String() string {
 	}
 	if c.FaultAt > 0 {
 		s += fmt.Sprintf(" fault@%d", c.FaultAt)
+	}
+	if c.FailRename {
+		s += " rename-fails"
 	}
 	if c.CancelAt > 0 {
 		s += fmt.Sprintf(" cancel@%d", c.CancelAt)
@@ -150,6 +156,7 @@ func errKind(err error) string {
 }
 
 var errInjected = errors.New("harness: injected backend failure")
+var errCrossDevice = errors.New("harness: rename: invalid cross-device link")
 
 type Entry struct {
 	Path string `json:"path"` // relative to the root, '/'-separated
@@ -192,6 +199,7 @@ type backend struct {
 	faultAt  atomic.Int64
 	cancelAt atomic.Int64
 	cancel   atomic.Value // context.CancelFunc
+	noRename atomic.Bool
 }
 
 func newBackend(name string, root string) (*backend, error) {
@@ -216,6 +224,9 @@ func newBackend(name string, root string) (*backend, error) {
 func (b *backend) hook(op *shim.Op) error {
 	if b.killed.Load() {
 		return errInjected
+	}
+	if op.Name == "Rename" && b.noRename.Load() {
+		return errCrossDevice
 	}
 	n := b.opCount.Add(1)
 	if k := b.faultAt.Load(); k > 0 && n == k {
@@ -421,13 +432,14 @@ func (b *backend) run1(ctx context.Context, c Call) (r Result) {
 	return
 }
 
-const callTimeout = 8 * time.Second
+const callTimeout = 4 * time.Second
 
 // run performs the call under the per-call watchdog and returns the projected result and the handle balance.
 func (b *backend) run(c Call) (Result, int64) {
 	b.opCount.Store(0)
 	b.faultAt.Store(int64(c.FaultAt))
 	b.cancelAt.Store(int64(c.CancelAt))
+	b.noRename.Store(c.FailRename)
 	ctx, cancel := context.WithCancel(context.Background())
 	b.cancel.Store(cancel)
 	defer cancel()
@@ -442,12 +454,13 @@ func (b *backend) run(c Call) (Result, int64) {
 		b.killed.Store(true)
 		select {
 		case <-done:
-		case <-time.After(5 * time.Second):
+		case <-time.After(3 * time.Second):
 		}
 		r = Result{Hung: true}
 	}
 	b.faultAt.Store(0)
 	b.cancelAt.Store(0)
+	b.noRename.Store(false)
 	return r, b.sh.OpenHandles()
 }
 
